@@ -2373,7 +2373,10 @@ def oracle_C15(case, **opts):
     cols = _all_columns(case)
     tabs = sorted(case["tables"])
     fc, ft = opts.get("force_columns") or {}, opts.get("force_tables") or {}
-    for trial in range(opts.get("renamings", 3)):
+    has_join = any(st.get("call") == "natural_join" for st in P.pipe_steps(case["pipe"]))
+    # join pipelines get more renamings: the executors' suffix conventions (`<c>_tmp_right_col`, `<c>_da_right_tmp`, …) only
+    # matter for particular pairs of names on particular sides
+    for trial in range(max(opts.get("renamings", 3), 6) if has_join else opts.get("renamings", 3)):
         reserved = trial % 2 == 1 or opts.get("reserved_only", False)
         cm, tm = {}, {}
         used = {v.lower() for v in fc.values()} | {c.lower() for c in cols}
@@ -2390,7 +2393,7 @@ def oracle_C15(case, **opts):
                 new += "z"
             used.add(new.lower())
             cm[c] = new
-        if reserved and len(cols) >= 2 and rng.random() < 0.6:
+        if reserved and len(cols) >= 2 and rng.random() < (0.9 if has_join else 0.6):
             # a suffix name built on the NEW name of another column (`<stem>` + `_tmp_right_col` next to a column `<stem>`):
             # the executors' suffix conventions only matter relative to the names actually present
             c1, c2 = rng.sample(cols, 2)
